@@ -110,3 +110,203 @@ def gen_C01(rng, tier, cfg):
 
 
 GENS = {"C01": gen_C01}
+
+
+# ----------------------------------------------------------------------------- C02 / C11
+
+def seek_op(rng, slot, p, tyhint=None):
+    """seek to p with a SeekNum type that can hold it (or the hinted one)."""
+    tys = [t for t, (lo, hi) in SEEKTYS.items() if lo <= p <= hi]
+    t = tyhint if tyhint in tys else rng.choice(tys)
+    return "chacha seek %d %s %d" % (slot, t, p)
+
+
+def history(rng, v, slot, n, near=None, stats=None):
+    """random walk over {seek, apply, failed apply, pos, clone} for variant v."""
+    ops = []
+    lim = limit(v)
+    pos = 0
+    for _ in range(n):
+        k = rng.below(20)
+        if k < 5:
+            # seek
+            c = rng.below(8)
+            if near is not None and c < 5:
+                p = near + rng.below(700) - 400
+            elif c < 3:
+                p = rng.choice([0, 1, 5, 63, 64, 65, 100, 255, 256, 257, 300])
+            elif c < 6:
+                p = rng.below(2**20)
+            else:
+                p = rng.below(min(lim, 2**64))
+            p = max(0, min(p, min(lim, 2**64 - 1)))
+            ops.append(seek_op(rng, slot, p))
+            pos = p
+            if stats is not None:
+                stats["seek"] = stats.get("seek", 0) + 1
+                stats["midblock_seek"] = stats.get("midblock_seek", 0) + (1 if p % 64 else 0)
+        elif k < 15:
+            ln = rng.choice(LENS + [3, 7, 17, 40, 60, 61, 62, 66, 100, 130, 260, 700])
+            ops.append("chacha applypat %d %d %d" % (slot, ln, rng.below(1000)))
+            if pos + ln <= lim:
+                pos += ln
+                if stats is not None:
+                    stats["apply_ok"] = stats.get("apply_ok", 0) + 1
+            elif stats is not None:
+                stats["apply_past_end"] = stats.get("apply_past_end", 0) + 1
+        elif k < 18:
+            t = rng.choice(list(SEEKTYS))
+            ops.append("chacha pos %d %s" % (slot, t))
+            if stats is not None:
+                stats["pos"] = stats.get("pos", 0) + 1
+        elif k == 18:
+            ops.append("chacha clone %d %d" % (slot, slot + 1))
+            ops.append("chacha applypat %d %d %d" % (slot + 1, rng.choice([1, 64, 65, 300]), 7))
+            ops.append("chacha pos %d u128" % (slot + 1))
+        else:
+            # out-of-range / odd seeks
+            t = rng.choice(list(SEEKTYS))
+            lo, hi = SEEKTYS[t]
+            val = rng.choice([lo, hi, hi - 1, max(lo, min(hi, lim)), max(lo, min(hi, lim + 1)), max(lo, min(hi, lim - 1)),
+                              max(lo, min(hi, 2**64)), max(lo, min(hi, 2**64 - 1)), max(lo, -1)])
+            ops.append("chacha seek %d %s %d" % (slot, t, val))
+            ops.append("chacha pos %d u128" % slot)
+            if stats is not None:
+                stats["odd_seek"] = stats.get("odd_seek", 0) + 1
+            # resynchronise our notion of pos
+            ops.append(seek_op(rng, slot, min(pos, 2**64 - 1), "u64"))
+    return ops
+
+
+def gen_C02(rng, tier, cfg):
+    backends = backends_for(cfg, tier)
+    ops, stats = [], {}
+    nh = 6 if tier == "quick" else 120
+    hl = 25 if tier == "quick" else 40
+    for be in backends[:1] if tier == "quick" else backends:
+        ops.append("cfg backend %s" % be)
+        for v in VARIANTS:
+            for h in range(nh):
+                ops.append("chacha new 0 %s %s %s" % (v, hx(struct_bytes(rng, 32)), hx(struct_bytes(rng, NONCE[v]))))
+                near = None
+                if h % 3 == 1:
+                    near = rng.choice([2**32 * 64, 2**38] if v == "ietf" else [2**32 * 64, 2**64, 2**63])
+                ops += history(rng, v, 0, hl, near, stats)
+                # apply twice at one position restores the data
+                p = rng.below(2**16)
+                ops.append(seek_op(rng, 0, p, "u64"))
+                ops.append("chacha applypat 0 %d 5" % rng.choice([1, 63, 64, 65, 300]))
+    return ops, stats
+
+
+def gen_C11(rng, tier, cfg):
+    backends = backends_for(cfg, tier)
+    ops, stats = [], {}
+    nh = 8 if tier == "quick" else 100
+    for be in backends[:1] if tier == "quick" else backends:
+        ops.append("cfg backend %s" % be)
+        for v in VARIANTS:
+            lim = limit(v)
+            for h in range(nh):
+                n0 = rng.choice([bytes(NONCE[v]), b"\xff" * NONCE[v], struct_bytes(rng, NONCE[v])])
+                ops.append("chacha new 0 %s %s %s" % (v, hx(struct_bytes(rng, 32)), hx(n0)))
+                anchors = [2**38, 2**32 * 64, 0] if v == "ietf" else [2**64, 2**32 * 64, 0]
+                a = anchors[h % len(anchors)]
+                for _ in range(12):
+                    p = a + rng.below(1200) - 900
+                    p = max(0, min(p, min(lim, 2**64 - 1)))
+                    ops.append(seek_op(rng, 0, p))
+                    for _ in range(rng.below(3) + 1):
+                        ln = rng.choice([0, 1, 2, 63, 64, 65, 128, 192, 255, 256, 257, 300, 512, 513, 700, 1100])
+                        ops.append("chacha applypat 0 %d %d" % (ln, rng.below(100)))
+                        ops.append("chacha pos 0 u128")
+                    stats["near_%d" % a] = stats.get("near_%d" % a, 0) + 1
+                # seeks with every type incl. out-of-range values
+                for t, (lo, hi) in SEEKTYS.items():
+                    for val in (lo, hi, lim, lim + 1, lim - 1, lim + 64, 2**64 - 1, 2**64, 2**70, -1):
+                        if lo <= val <= hi:
+                            ops.append("chacha seek 0 %s %d" % (t, val))
+                            ops.append("chacha applypat 0 65 3")
+                            ops.append("chacha pos 0 u128")
+                # exact end
+                if v == "ietf":
+                    for back in (64, 65, 256, 300, 1):
+                        ops.append("chacha seek 0 u64 %d" % (lim - back))
+                        ops.append("chacha applypat 0 %d 1" % back)
+                        ops.append("chacha applypat 0 1 1")
+                        ops.append("chacha applypat 0 0 1")
+                        ops.append("chacha seek 0 u64 0")
+                        ops.append("chacha applypat 0 64 2")
+    return ops, stats
+
+
+# ----------------------------------------------------------------------------- C14 / C15
+
+def gen_C14(rng, tier, cfg):
+    backends = backends_for(cfg, "thorough" if tier == "thorough" else tier)
+    ops, stats = [], {"counters": 0}
+    reps = 3 if tier == "quick" else 30
+    for be in backends:
+        ops.append("cfg backend %s" % be)
+        for _ in range(reps):
+            for dr in range(0, 11):
+                key = struct_bytes(rng, 32)
+                nonce = struct_bytes(rng, 8)
+                ctr = rng.choice([0, 1, 2**32 - 1, 2**32 - 2, 2**32 - 3, 2**32 - 4, 2**32 - 5, 2**32, 2**64 - 1, 2**64 - 2,
+                                  2**64 - 3, 2**64 - 4, 2**64 - 5, 2**63, rng.below(2**64)])
+                sid = rng.choice([0, 2**64 - 1, rng.below(2**64)])
+                ops.append("guts new 0 %s %s" % (hx(key), hx(nonce)))
+                ops.append("guts set 0 0 %d" % ctr)
+                if rng.below(2):
+                    ops.append("guts set 0 1 %d" % sid)
+                ops.append("guts clone 0 1")
+                ops.append("guts refill4 0 %d" % dr)
+                for _ in range(4):
+                    ops.append("guts refill 1 %d" % dr)
+                for s in (0, 1):
+                    ops.append("guts get %d 0" % s)
+                    ops.append("guts get %d 1" % s)
+                ops.append("guts eq64 0 1")
+                ops.append("guts refill 0 0")
+                ops.append("guts refill 1 0")
+                stats["counters"] += 1
+    return ops, stats
+
+
+def gen_C15(rng, tier, cfg):
+    ops, stats = [], {"pairs": 0}
+    reps = 40 if tier == "quick" else 2000
+    ops.append("cfg backend %s" % backends_for(cfg, tier)[0])
+    for _ in range(reps):
+        key = bytearray(struct_bytes(rng, 32))
+        nl = rng.choice([8, 12])
+        nonce = bytearray(struct_bytes(rng, nl))
+        ops.append("guts new 0 %s %s" % (hx(bytes(key)), hx(bytes(nonce))))
+        # second state differing in exactly one of the key/nonce words (or equal)
+        k2, n2 = bytearray(key), bytearray(nonce)
+        which = rng.below(14)
+        if which < 8:
+            k2[4 * which + rng.below(4)] ^= 1 << rng.below(8)
+        elif which < 8 + nl // 4:
+            n2[4 * (which - 8) + rng.below(4)] ^= 1 << rng.below(8)
+        ops.append("guts new 1 %s %s" % (hx(bytes(k2)), hx(bytes(n2))))
+        ops.append("guts eq32 0 1")
+        ops.append("guts eq64 0 1")
+        for p in (0, 1):
+            val = rng.choice([0, 1, 2**32 - 1, 2**32, 2**64 - 1, rng.below(2**64)])
+            ops.append("guts get 0 %d" % p)
+            ops.append("guts set 0 %d %d" % (p, val))
+            ops.append("guts get 0 0")
+            ops.append("guts get 0 1")
+            ops.append("guts eq32 0 1")
+            ops.append("guts eq64 0 1")
+        ops.append("guts refill 0 %d" % rng.below(11))
+        ops.append("guts refill 0 0")
+        if rng.below(10) == 0:
+            ops.append("guts set 0 %d 5" % rng.choice([2, 3, 7]))   # out-of-range parameter: panic
+            ops.append("guts get 0 %d" % rng.choice([2, 3, 7]))
+        stats["pairs"] += 1
+    return ops, stats
+
+
+GENS.update({"C02": gen_C02, "C11": gen_C11, "C14": gen_C14, "C15": gen_C15})
